@@ -7,7 +7,7 @@
 (* printed as <<"MISMATCH", json>> and classified against the open known   *)
 (* findings.  TraceAccepted requires that every line was consumed.         *)
 (***************************************************************************)
-EXTENDS Order, KnownFindings, Range, ShorthandSem, VersSem, Json, SequencesExt, FiniteSetsExt, Dpkg, MavenCV, SemVer, Pep440, GemVersion, Apk
+EXTENDS Order, KnownFindings, Range, ShorthandSem, VersSyntax, Json, SequencesExt, FiniteSetsExt, Dpkg, MavenCV, SemVer, Pep440, GemVersion, Apk
 
 CONSTANTS TraceFile,     \* path of the NDJSON trace
           Prop,          \* property id being judged, e.g. "C01"
@@ -177,8 +177,45 @@ VersC04(ev) ==
   \cup {[prop |-> "C04", scheme |-> ev.scheme, why |-> "panic", text |-> ev.text, probe |-> ev.panics[i], got |-> FALSE,
           want |-> FALSE, msg |-> "", known |-> ""] : i \in 1..Len(ev.panics)}
 
+(* C16: every meaning-preserving spelling of a VERS range gives, on every probe,  *)
+(* the result and the error/no-error outcome of the base spelling (codes: 0/1 =   *)
+(* false/true without error, 2/3 = with error).                                   *)
+VersVarC16(ev) ==
+  {[prop |-> "C16", scheme |-> ev.scheme, why |-> "variant-differs", base |-> ev.base, variant |-> ev.variants[p[1]],
+    probe |-> ev.probes[p[2]], got |-> ev.res[p[1]][p[2]], want |-> ev.baseres[p[2]], known |-> ""]
+     : p \in {p \in (1..Len(ev.variants)) \X (1..Len(ev.probes)) : ev.res[p[1]][p[2]] # ev.baseres[p[2]]}}
+  \cup {[prop |-> "C16", scheme |-> ev.scheme, why |-> "panic", base |-> ev.base, variant |-> ev.panics[i], probe |-> "",
+          got |-> 9, want |-> 0, known |-> ""] : i \in 1..Len(ev.panics)}
+
+(* C17: vers.Contains returns an error (and false) exactly for strings that are   *)
+(* not well-formed - syntax (VParse on the bytes), unsupported scheme, or a         *)
+(* version (bound or probe) the scheme's own ecosystem rejects - and otherwise      *)
+(* answers with the denotation under that ecosystem's order (logged matrix).        *)
+VersWfC17(ev) ==
+  LET p  == VParse(ev.bytes)
+      n  == Len(p.cons)
+      allValid == Len(ev.valid) = n /\ (\A i \in 1..n : ev.valid[i]) /\ ev.probevalid
+      wf == p.syntaxOk /\ p.supported /\ ev.eco = (IF p.supported THEN SchemeEco[p.scheme] ELSE "") /\ allValid
+      M  == ev.m
+      distinct == \A i, k \in 1..n : i # k => M[i][k] # 0
+      rank(i) == 1 + Cardinality({k \in 1..n : M[k][i] < 0})
+      cs == [i \in 1..n |-> [op |-> p.cons[i].op, pos |-> 2 * rank(i) - 1]]
+      E0 == {i \in 1..n : M[n + 1][i] = 0}
+      ppos == IF E0 # {} THEN 2 * rank(CHOOSE i \in E0 : TRUE) - 1 ELSE 2 * Cardinality({k \in 1..n : M[k][n + 1] < 0})
+      rec(why, want) == {[prop |-> "C17", why |-> why, text |-> ev.text, probe |-> ev.probe, scheme |-> p.scheme, ok |-> ev.ok,
+                          err |-> ev.err, want |-> want, msg |-> ev.msg, known |-> ""]} IN
+  IF Len(ev.panics) > 0 THEN rec("panic", FALSE)
+  ELSE IF p.loneStar THEN {}
+  ELSE IF p.cons # ev.cons THEN rec("trace-inconsistent", FALSE)
+  ELSE IF ~wf THEN (IF ev.err /\ ~ev.ok THEN {} ELSE rec(IF ev.err THEN "true-with-error" ELSE "ill-formed-accepted", FALSE))
+  ELSE IF ev.err THEN rec("well-formed-rejected", TRUE)
+  ELSE IF distinct /\ Alternates(cs) /\ ev.ok # VDen(cs, ppos) THEN rec("routing", VDen(cs, ppos))
+  ELSE {}
+
 Judge(ev) ==
   CASE ev.k = "matrix" /\ Prop = "C01" -> MatrixC01(ev)
+    [] ev.k = "verswf" /\ Prop = "C17" -> VersWfC17(ev)
+    [] ev.k = "versvar" /\ Prop = "C16" -> VersVarC16(ev)
     [] ev.k = "vers" /\ Prop = "C04" -> VersC04(ev)
     [] ev.k = "cmp" /\ Prop = "C03" -> CmpC03(ev)
     [] ev.k = "members" /\ Prop = "C20" -> MembersC20(ev)
